@@ -202,7 +202,7 @@ func CheckC06(sc *Scenario, res *Result) *Violation {
 			return violf("C06-report-content", "report for the panic of %s #%d: %s", w.Kind, id, msg)
 		}
 		// service workers are restarted
-		if w.Kind == "service" && w.Mode == "finish" && began[id] < 2 {
+		if w.Kind == "service" && w.Mode == "finish" && w.BackoffMS < 1000 && began[id] < 2 {
 			return violf("C06-service-restart", "service worker #%d panicked and was not run again", id)
 		}
 	}
